@@ -1031,8 +1031,8 @@ def value_findings(case, result):
             if not call["ordered"]:
                 # unordered: the chunks may arrive in any order, each chunk keeps its inner order
                 cs_ = call["chunk"]
-                want_chunks = sorted(tuple(want_seq[k:k + cs_]) for k in range(0, len(want_seq), cs_))
-                got_chunks = sorted(tuple(got_seq[k:k + cs_]) for k in range(0, len(got_seq), cs_))
+                want_chunks = sorted((tuple(want_seq[k:k + cs_]) for k in range(0, len(want_seq), cs_)), key=repr)
+                got_chunks = sorted((tuple(got_seq[k:k + cs_]) for k in range(0, len(got_seq), cs_)), key=repr)
                 if len(got_seq) == len(want_seq) and got_chunks != want_chunks:
                     # chunks of equal length may interleave only at chunk borders; the last (shorter) chunk may sit anywhere:
                     # fall back to matching every wanted chunk as a contiguous run
